@@ -480,7 +480,7 @@ impl TargetActors {
         /*[C08.no-inval-oneshot]*/ old(self).watch_option is Disabled ==> final(tr).watchers == old(tr).watchers,
 //@pre
         let ghost tid = *target_id;
-//@after 0 `let handles = self.get_target_actor_handles(target_id)?;`
+//@after 0 `let handles = self.get_target_actor_handles(`
         let ghost t1 = *tr;
         let ghost d0 = tr.delivered;
 //@loop 0 binder=it
